@@ -3,3 +3,5 @@ from tvc.standins import register
 
 register("selection_envs", ("C08", "C02", "C03", "C04"), "selection_envs.py", quick=["--tier", "quick"], thorough=["--tier", "thorough"])
 register("generators", ("C18",), "generators.py", quick=["--tier", "quick"], thorough=["--tier", "thorough"])
+register("improvement_envs", ("C09",), "improvement_envs.py", quick=["--tier", "quick"], thorough=["--tier", "thorough"])
+register("datasets_persistence", ("C17", "C19"), "datasets_persistence.py", quick=["--tier", "quick"], thorough=["--tier", "thorough"])
